@@ -20,6 +20,7 @@ import (
 	"runtime/pprof"
 	"sort"
 	"strconv"
+	"strings"
 	"sync"
 	"sync/atomic"
 	"time"
@@ -280,6 +281,10 @@ func main() {
 		}
 		fmt.Printf("replaying phase=%s\n", c.Phase)
 		fs := runCase(c)
+		if len(fs) > 0 && strings.HasSuffix(fs[len(fs)-1].sig, "oracle=replay-diverged") {
+			fmt.Println("observed: the recorded schedule cannot be executed on this code (a writer that could move when it was recorded cannot move now, or the reverse): " + fs[len(fs)-1].what)
+			fs = nil
+		}
 		if len(fs) == 0 {
 			fmt.Println("observed: every oracle holds for this case")
 			fmt.Println("OK property=C20 replayed case holds")
@@ -326,14 +331,15 @@ func main() {
 	}
 	r.Set("rule", fmt.Sprintf("REAL code over a pipe the checker owns. "+
 		"(a1) chunking: per direction every (Write-size sequence, Read-buffer sequence) with sizes from {1,1023,1024,1025,2048}: all write sequences of <=%d calls completed to a %d-byte stream x all read-buffer sequences of <=%d calls (then 4096) x {all writes first, read after each write}, plus a reduced product with the transport handing out at most {1,1000} bytes per Read; oracle bytes read == bytes written, once, in order, then the reader stalls. "+
-		"(a2) two writers per side: all merges of their Write calls for all size lists of <=%d calls each (one goroutine), plus free-running iterations with two real writer goroutines and a reader per side (premise: a whole Write is atomic; the -race pass runs the same body). "+
+		"(a2) two writers per side: all merges of their Write calls for all size lists of <=%d calls each (one goroutine). The premise 'a whole Write call is atomic' is EXPLORED: two real writer goroutines on one real SecretConnection, gated before every Write call and inside the pipe at every underlying conn.Write (sealed frame in hand); at every quiescent point (each writer finished, parked at a gate, or blocked inside the code under test, the last read off the goroutine's scheduler state in a stop-the-world stack snapshot) verif/mc/explore chooses whom to release, default = the writer that ran last, switching away from a writer that could continue = 1 preemption; quick: all unordered pairs of size lists of <=2 calls over {1,1024,1025,2048,3000} plus 3-call lists over {1,3000}, at least one multi-frame Write per scenario, all schedules with <=2 preemptions; thorough: lists of <=2 calls with <=3 preemptions in both directions, lists of <=3 calls (<=5 calls in total, 3+3 over {1,3000}) with <=2 preemptions; oracle: every Write returns (len,nil), the reader gets a concatenation of whole intact payloads, each writer's in its own order, all of them, no error, no deadlock. Plus free-running iterations with two real writer goroutines and a reader per side (the -race pass runs that body). "+
 		"(a3) man in the middle on a session of ephemeral-key message + auth frame + 4 data frames between two real SecretConnections, for BOTH lexical orders of the ephemeral keys: one bit flipped at first/middle/last byte of header, body and tag of every frame (and 6 positions of the key message), every unit dropped / cut off / duplicated / swapped with its successor / truncated at {1, half, len-1, tag only} with and without the rest following, every earlier unit of the same session inserted before or put in place of every later one, every unit of an earlier session of the same two identities inserted / substituted, the whole earlier stream, the ephemeral key replaced by 12 low-order points, the victim's own key, all-ff; oracle: error or stall before any altered byte is delivered, intact prefix delivered, anything but a pure cut of the tail detected as an ERROR. "+
 		"(a4) active attacker (independent implementation of the handshake, validated against the real one in both directions): claims a third party's key with own / relayed / 10 malformed signatures, signs another challenge, reflects the victim's message, seals with the wrong direction key, sends low-order keys, and as authenticated peer sends frames with 8 out-of-range length fields. "+
 		"(b) MultiplexTransport.upgrade: {inbound, dialled id = / != authenticated id} x {NodeInfo id = authenticated / third party / the node's own} x {peer key foreign / the node's own} x {compatible, other network, other block version, no common channel} x {valid, 4 invalid NodeInfos}, accepted iff all consistent, foreign, compatible, valid; plus the reflecting attacker x {inbound, dialled self, dialled other} x {NodeInfo reflected, own, none}. "+
 		"(c) MConnection: real unstarted sender driven op by op, real started receiver on the produced bytes, reference receiver on the same bytes: all message vectors of <=%d messages over 3 channels x 8 sizes {0,1,maxPayload-1,maxPayload,maxPayload+1,3*maxPayload,capacity,capacity+1} x {0,1,all} packets sent between enqueues x 2 flush policies (thorough: {0,1,2,all} x 3 for <=3 messages, {0,all} x 2 for 4 messages); every op sequence of length <=5 (thorough 7, plus the batch step) over {enqueue(3 channels x {1,maxPayload+1,capacity+1}), send one packet, flush} with <=3 enqueues and send-queue capacity 1, read back in chunks as written and 7 bytes at a time; hand-made packet streams: every merge of the packets of three multi-packet messages on three channels, unknown channel ids, a never-ending message, exact capacity +0/+1 byte, ping/pong in between; the repository's default capacity (21 MiB) +0/+1; message vectors through the full stack MConnection -> SecretConnection -> pipe -> SecretConnection -> MConnection. "+
-		"evaluations = sessions / cases executed on the real code. distinct_nontrivial = distinct (phase, input class, key order where relevant, observed outcome [, frame layout + read return sizes for chunkings, size/channel vector + op string for MConnection]) over cases that are non-trivial: the stream spans >=2 frames (chunkings), the manipulation really changed the delivered bytes (man in the middle), the attacker got through the key exchange (attacker), the upgrade ran a handshake (transport), >=1 message was queued or >=1 packet parsed (MConnection).", kw, streamLen, kr, ml, km))
+		"evaluations = sessions / cases executed on the real code. distinct_nontrivial = distinct (phase, input class, key order where relevant, observed outcome [, frame layout + read return sizes for chunkings, scenario + wire order of the frames + payload order for controlled interleavings, size/channel vector + op string for MConnection]) over cases that are non-trivial: the stream spans >=2 frames (chunkings), the manipulation really changed the delivered bytes (man in the middle), the attacker got through the key exchange (attacker), the upgrade ran a handshake (transport), >=1 message was queued or >=1 packet parsed (MConnection).", kw, streamLen, kr, ml, km))
 	r.Assume(
 		"cryptographic hardness (X25519, ChaCha20-Poly1305, ECDSA/secp256k1, HKDF, merlin) is assumed; ephemeral keys and hence ciphertexts are random per run, the outcome classes are not",
+		"controlled interleavings: a writer counts as blocked inside the code under test when a stop-the-world goroutine snapshot shows it in a waiting state (mutex, rwmutex, cond, wait group, channel) entered directly from a function of the repository while every other writer is parked at a gate of the checker or finished; Go 1.23 stack-dump format; the phase runs with GOMAXPROCS(1)",
 		"a reader that would block for ever (empty inbox, the checker has nothing more to feed) is given the error 'connection stalls'; it stands for the expiry of the peer's deadline, which the checker owns instead of the wall clock; stalling is an accepted outcome only for manipulations of the handshake units and for pure cuts of the tail",
 		"man in the middle: the manipulated direction is held by the checker; it relies on the handshake writing exactly two units per side unconditionally (ephemeral-key message, one auth frame), measured on every clean handshake (clean_handshake_directions_with_2_writes)",
 		"weakest reading for the reflection of a node's own authentication message by an active attacker: the SecretConnection alone accepts it (the challenge is symmetric; measured, info_secret_connection_alone_accepts_reflection_of_own_identity) and documents that consumers must authenticate the remote key; the property is decided at the peer-connection level, where upgrade must (and is checked to) reject a peer authenticated as the node itself in every variant",
@@ -346,6 +352,7 @@ func main() {
 	r.Set("distinct_nontrivial", nontrivial.count())
 	if n := atomic.LoadInt64(&irreproducible); n > 0 {
 		r.Set("irreproducible_findings_not_reported", n)
+		fmt.Fprintf(os.Stderr, "c20: note: %d finding(s) did not reproduce in 5 re-executions and are not reported as violations; first: %v\n", n, firstIrreproducible.Load())
 		if r.NumViolations() == 0 {
 			fmt.Printf("MACHINERY-ERROR property=C20 %d finding(s) did not reproduce in 5 re-executions and nothing else was found; first: %v\n", n, firstIrreproducible.Load())
 			os.Exit(3)
@@ -681,66 +688,70 @@ func replayIlv(sp ilvSpec) (fs []finding) {
 	return append(hf, fs...)
 }
 
+var ilvViolating int64
+
+const ilvMaxViolating = 300
+
 func phaseInterleave() {
 	t0 := time.Now()
-	{
-		buf := make([]byte, 64<<20)
-		n := runtime.Stack(buf, true)
-		fmt.Fprintf(os.Stderr, "c20: goroutines at start of the interleaving phase: %d, dump %d bytes\n", runtime.NumGoroutine(), n)
-		if os.Getenv("VERIF_C20_DUMP") != "" {
-			os.WriteFile(os.Getenv("VERIF_C20_DUMP"), buf[:n], 0o644)
-		}
-	}
+	// The goroutine-state snapshot stops the world; with many Ps on a shared machine that costs
+	// milliseconds per snapshot (measured: 9 ms with 16 workers), with a single P ~50 microseconds, and the
+	// whole phase is 8x faster on one P with one worker than on sixteen. So this phase runs on one P.
 	procs := 1
 	if v, err := strconv.Atoi(os.Getenv("VERIF_C20_ILV_PROCS")); err == nil && v > 0 {
 		procs = v
 	}
 	old := runtime.GOMAXPROCS(procs)
 	defer runtime.GOMAXPROCS(old)
-	bound := 2
-	specs := ilvScenarios(2, ilvSizes)
-	if r.Thorough() {
-		bound = 3
-		specs = ilvScenarios(3, ilvSizes)
-	} else {
-		// quick: 3-call lists over a reduced size set on top of all lists of <= 2 calls
-		seen := map[string]bool{}
-		for _, sp := range specs {
-			seen[fmt.Sprint(sp.W)] = true
-		}
-		for _, sp := range ilvScenarios(3, []int{1, 3000}) {
-			if !seen[fmt.Sprint(sp.W)] {
+	// quick:    all size lists of <= 2 calls per writer plus all lists of 3 calls over {1, 3000}, <= 2 preemptions
+	// thorough: all lists of <= 2 calls with <= 3 preemptions in both directions; all lists of <= 3 calls with at
+	//           most 5 calls in total (and 3+3 calls over {1, 3000}) with <= 2 preemptions.
+	// (One P, see above: ~0.3 ms per execution.)
+	var specs []ilvSpec
+	seen := map[string]bool{}
+	addAll := func(list []ilvSpec, bound int, bothDirs bool) {
+		for _, sp := range list {
+			k := fmt.Sprint(sp.W, bound)
+			if seen[k] {
+				continue
+			}
+			seen[k] = true
+			sp.Bound = bound
+			sp.Dir = len(specs) % 2
+			specs = append(specs, sp)
+			if bothDirs {
+				sp.Dir = 1 - sp.Dir
 				specs = append(specs, sp)
 			}
 		}
 	}
 	if r.Thorough() {
-		both := make([]ilvSpec, 0, 2*len(specs))
-		for _, sp := range specs {
-			a, b := sp, sp
-			b.Dir = 1
-			both = append(both, a, b)
+		addAll(ilvScenarios(2, ilvSizes), 3, true)
+		var upTo5 []ilvSpec
+		for _, sp := range ilvScenarios(3, ilvSizes) {
+			if len(sp.W[0])+len(sp.W[1]) <= 5 {
+				upTo5 = append(upTo5, sp)
+			}
 		}
-		specs = both
+		addAll(upTo5, 2, false)
+		addAll(ilvScenarios(3, []int{1, 3000}), 2, false)
 	} else {
-		for i := range specs {
-			specs[i].Dir = i % 2
-		}
+		addAll(ilvScenarios(2, ilvSizes), 2, false)
+		addAll(ilvScenarios(3, []int{1, 3000}), 2, false)
 	}
-	for i := range specs {
-		specs[i].Bound = bound
-	}
-	r.Set("ilv_preemption_bound", bound)
 	done := poolN(procs, int64(len(specs)), freshPair, func(ctx interface{}, i int64) interface{} {
 		pr, _ := ctx.(*pair)
 		sp := specs[i]
 		orders := map[string]bool{}
-		ex := &explore.Explorer{Bound: bound, Workers: 1, NoPrune: true, Deadline: deadlineAt}
+		ex := &explore.Explorer{Bound: sp.Bound, Workers: 1, NoPrune: true, Deadline: deadlineAt}
 		ex.OnPanic = func(_ *explore.Ctx, p interface{}) {
 			fmt.Printf("MACHINERY-ERROR property=C20 controlled interleaving %v: %v\n", sp.W, p)
 			os.Exit(3)
 		}
 		ex.Body = func(c *explore.Ctx) {
+			if atomic.LoadInt64(&ilvViolating) > ilvMaxViolating {
+				return
+			}
 			if pr == nil {
 				x := freshPair()
 				if x == nil {
@@ -772,6 +783,9 @@ func phaseInterleave() {
 				sc := sp
 				sc.Choices = c.Choices()
 				reportFindings(caseSpec{Phase: "interleave", Ilv: &sc}, fs)
+				if atomic.AddInt64(&ilvViolating, 1) == ilvMaxViolating+1 {
+					r.NotExhaustive(fmt.Sprintf("controlled interleavings stopped after %d violating executions (every one costs a new handshake; the smallest schedules come first)", ilvMaxViolating))
+				}
 			}
 			if !obs.pairHealthy {
 				pr.close()
